@@ -84,6 +84,18 @@ func (ex *Exec) regionDiff(a, b Region) *Term {
 	if lenNe.IsTrue() {
 		return lenNe
 	}
+	// equal concrete lengths: the regions differ iff one of the (syntactically different)
+	// byte pairs differs – no Skolem index, no symbolic selects
+	if a.n.isConst && b.n.isConst && a.n.cv == b.n.cv && a.n.cv <= 20000 {
+		var ds []*Term
+		for i := uint64(0); i < a.n.cv; i++ {
+			x, y := ex.regAt(a, c64(c, i)), ex.regAt(b, c64(c, i))
+			if x != y {
+				ds = append(ds, c.Not(c.Eq(x, y)))
+			}
+		}
+		return c.Or(ds...)
+	}
 	// small constant length: expand exactly (no Skolem needed)
 	if a.n.isConst && a.n.cv <= 8 {
 		var ds []*Term
@@ -191,7 +203,12 @@ func (ex *Exec) applyHash(fn string, outBits int, ideal bool, parts ...Region) *
 						inst = append(inst, c.Or(c.Ule(a.n, w), c.Eq(ex.regAt(a, w), ex.regAt(b, w))))
 					}
 				}
-				ex.addAxiom(c.Implies(eqOut, c.And(inst...)))
+				eqI := eqOut
+				if outBits > 128 {
+					// also the 128-bit truncation (HMAC-SHA256-128) is collision free
+					eqI = c.Eq(c.Extract(prev.out, outBits-1, outBits-128), c.Extract(out, outBits-1, outBits-128))
+				}
+				ex.addAxiom(c.Implies(eqI, c.And(inst...)))
 			}
 		}
 	}
